@@ -71,7 +71,7 @@ def unbound_flags(name, text, spec):
 
 
 def format_concordant(name, spec):
-    """Is some format of the tensor named by the variable `name` written in the order in which one of the Einsums using the
+    """Is some format of the tensor named by the variable `name` written in the order in which the FIRST Einsum using the
     tensor iterates it (its levels in that Einsum's explicit loop order)?  Computed from the specification alone.
     None when it cannot be decided (no explicit loop order / no format)."""
     from teaal.parse.yaml import YamlParser      # ruamel-based reader shipped with the repository (JSON is YAML)
@@ -84,13 +84,18 @@ def format_concordant(name, spec):
         return None
     t = m.group(1)
     loops = (d.get("mapping") or {}).get("loop-order") or {}
+    # the FIRST Einsum (program order) that uses the tensor is the one whose section reads the format first
+    first = None
+    for st in spec.structs:
+        if st["out"] == t or any(fc[0] == "T" and fc[1] == t for tm in st["terms"] for fc in tm["factors"]):
+            first = st
+            break
+    if first is None or first["out"] not in loops:
+        return None
     verdicts = []
     for fname, f in (d["format"][t] or {}).items():
         order = list(f.get("rank-order") or [])
-        for st in spec.structs:
-            uses = st["out"] == t or any(fc[0] == "T" and fc[1] == t for tm in st["terms"] for fc in tm["factors"])
-            if uses and st["out"] in loops:
-                verdicts.append([r for r in loops[st["out"]] if r in order] == order)
+        verdicts.append([r for r in loops[first["out"]] if r in order] == order)
     return any(verdicts) if verdicts else None
 
 
